@@ -64,6 +64,9 @@ class PlanJoinTSPredictorQuery:
                 query.where = cond
 
         def add_aliases(node, is_table, **kwargs):
+            if isinstance(node, Select):
+                # a sub-query has its own scope: its columns belong to its own tables
+                return node
             if not is_table and isinstance(node, Identifier):
                 if len(node.parts) == 1:
                     # add table alias to field
